@@ -604,6 +604,7 @@ func props() []rp.Prop {
 		rp.P[discCase]{Name: "socket-discovery", Checks: ev.Pick(320, 19200) / ev.Shards(), Gen: genCase("socket"), Sweep: sweepCounts, Check: check},
 		rp.P[burstCase]{Name: "burst", Sweep: sweepBurst, Check: checkBurst},
 		rp.P[stallCase]{Name: "debug-output-stalls", Sweep: sweepStall, Check: checkStall},
+		rp.P[queuedCase]{Name: "discovery-queued-for-the-bind-port", Sweep: sweepQueued, Check: checkQueued},
 	}
 }
 
